@@ -74,6 +74,9 @@ CfgSys == {[ft |-> 2, st |-> 1, mr |-> 1, iv |-> 2, to |-> 1], [ft |-> 1, st |->
 CfgStarve == {c \in CfgAll : c.mr < c.st /\ c.iv = 1 /\ c.to = 1}
 CfgSmall == {[ft |-> f, st |-> s, mr |-> m, iv |-> 1, to |-> 1] : f \in 1..2, s \in 1..2, m \in 1..2}
 CfgOne == {[ft |-> 2, st |-> 2, mr |-> 2, iv |-> 2, to |-> 2]}
+\* for the concurrent recovery probes of C08 (calls that span a trip and a timeout; success_threshold up to 3)
+CfgLive2 == {[ft |-> 1, st |-> 3, mr |-> 3, iv |-> 1, to |-> 1], [ft |-> 1, st |-> 2, mr |-> 2, iv |-> 1, to |-> 1],
+             [ft |-> 2, st |-> 2, mr |-> 3, iv |-> 1, to |-> 1]}
 CfgBoundary == {[ft |-> 1, st |-> 1, mr |-> 1, iv |-> 1, to |-> 1], [ft |-> 2, st |-> 1, mr |-> 1, iv |-> 1, to |-> 1],
                 [ft |-> 1, st |-> 2, mr |-> 2, iv |-> 1, to |-> 1], [ft |-> 2, st |-> 2, mr |-> 2, iv |-> 1, to |-> 1]}
 
